@@ -254,6 +254,18 @@ func loadPools() *pools {
 			n++
 		}
 	}
+	// the same batch content under a second ID (a client posting a batch twice): equal header and entries, two batches
+	for i := 0; i < 4 && i < n; i++ {
+		var b map[string]interface{}
+		if json.Unmarshal([]byte(p.batches[i]), &b) != nil {
+			continue
+		}
+		if bh, ok := b["batchHeader"].(map[string]interface{}); ok {
+			bh["id"] = fmt.Sprintf("b%d", len(p.batches))
+			out, _ := json.Marshal(b)
+			p.batches = append(p.batches, string(out))
+		}
+	}
 	p.batches = append(p.batches, `{"batchHeader":{"id":"b`+strconv.Itoa(len(p.batches))+`"}}`) // decodes to nothing valid
 	p.batches = append(p.batches, `{nonsense`)
 	thePools = p
